@@ -221,3 +221,54 @@ def shape_scenarios(cases, prop):
                               "expect": {"prop": prop, "c16": True, "policies": pol}}],
                     "meta": dict(sh, family="shape", sel=c["sel"])})
     return out
+
+def style_scenarios(style_sets, prop):
+    """C13 for configuration data: one router with installed policies that have to grow, shrink, lose a
+    family, stay, go away and appear; run once with the router's plain serialisation and once more
+    (twin: same start state, same inputs) with every reply re-serialised in the given style."""
+    out = []
+    for k, flags in enumerate(sorted(sorted(f) for f in style_sets)):
+        irr = Irr(); running = []; policies = {}; eph0 = []
+        plan = [("grow", (["a"], ["c"]), (["a", "b"], ["c"])), ("shrink", (["a", "b"], ["c"]), (["a"], [])),
+                ("same", (["r11"], []), (["r11"], [])), ("new", None, (["d"], ["c"])),
+                ("odd<&>name'\"", (["b"], []), (["b", "d"], [])), ("v6only", ([], ["c"]), (["a"], ["c"]))]
+        for name, inst, tgt in plan:
+            if inst:
+                eph0.append(installed(name, *inst))
+            expr = irr.asset_with(*tgt)
+            running.append(stmt(name, f"/* bgpfu-fltr: {expr} */"))
+            policies[name] = exp(True, True, "ok", tgt[0], tgt[1], expr, "style")
+        eph0.append(installed("gone", ["d"], []))
+        running.append(stmt("gone", "/* no longer managed */"))
+        policies["gone"] = exp(False, False, "none", why="unmarked")
+        running.append(stmt("plain", None, body="terms+reject"))
+        policies["plain"] = exp(False, False, "none", why="plain unannotated statement")
+        run = lambda twin: {"running": running, "irr": irr.db, "faults": [], "repeat": False, "twin": twin,
+                            "expect": {"prop": prop if twin else "C01", "c16": False, "policies": policies}}
+        plain, styled = run(False), run(True)
+        styled["style"] = list(flags)
+        out.append({"case": f"{prop}-y{k}", "instance": "bgpfu", "eph0": eph0, "runs": [plain, styled],
+                    "meta": {"family": "style", "style": "+".join(flags)}})
+    return out
+
+def garble_scenarios(cases, prop):
+    """C14 for the agent: one damaged reply per run; installed policies present so that the
+    configuration readers have something to read."""
+    out = []
+    seen = set()
+    for k, c in enumerate(sorted(cases, key=lambda c: (c["target"], c["kind"], c["index"]))):
+        if c["target"] != "load" and (c["target"], c["kind"]) in seen:
+            continue
+        seen.add((c["target"], c["kind"]))
+        irr = Irr(); running = []; policies = {}; eph0 = []
+        for name, inst, tgt in [("p-grow", (["a"], ["c"]), (["a", "b"], ["c"])), ("p-new", None, (["d"], [])), ("p-same", (["r11"], []), (["r11"], []))]:
+            if inst:
+                eph0.append(installed(name, *inst))
+            expr = irr.asset_with(*tgt)
+            running.append(stmt(name, f"/* bgpfu-fltr: {expr} */"))
+            policies[name] = exp(True, True, "ok", tgt[0], tgt[1], expr, "garble")
+        out.append({"case": f"{prop}-g{k}", "instance": "bgpfu", "eph0": eph0,
+                    "runs": [{"running": running, "irr": irr.db, "faults": [dict(c)], "repeat": False,
+                              "expect": {"prop": prop, "c16": False, "policies": policies, "garble": c["target"] + " " + c["kind"]}}],
+                    "meta": dict(c, family="garble")})
+    return out
